@@ -278,6 +278,16 @@ func (c *Ctx) Finish() int {
 		"wall_s": float64(time.Since(c.start).Milliseconds()) / 1000, "violations": c.violations,
 	}
 	b, _ := json.MarshalIndent(evd, "", " ")
+	if os.Getenv("VERIF_NO_EVIDENCE") != "" {
+		// helper run (e.g. the -race child of C28): counters go to stdout for the parent, no evidence file
+		for _, k := range keys {
+			fmt.Printf("COUNTER %s %d\n", k, c.counters[k])
+		}
+		if c.violations > 0 {
+			return 1
+		}
+		return 0
+	}
 	_ = os.MkdirAll(filepath.Join(Root, "evidence"), 0o755)
 	if err := os.WriteFile(filepath.Join(Root, "evidence", c.ID+".json"), append(b, '\n'), 0o644); err != nil {
 		fmt.Printf("BROKEN: cannot write evidence: %v\n", err)
